@@ -9,13 +9,16 @@ use refimpl::wire::{INFO_AUTOLOGON};
 use serde::{Deserialize, Serialize};
 
 pub const LEVEL: &str = "exploration";
-pub const RULE: &str = "case = (connector configuration, conforming server profile). The client stack (MCS connect, client info / licence, activation, reactivation rounds, shutdown) runs against the sans-IO reference server which parses every client message strictly and records order, identifier and dependency violations. Oracle: every call returns Ok; the decoded sequence is connect-initial, erect-domain, attach-user, one join per channel (either order), client info, then per demand-active confirm-active + synchronize + cooperate + request-control + font-list, finally the disconnect ultimatum; no message written before the reply it depends on; initiator / channel / share id / PDUSource / originator / echoed protocol as assigned. Non-trivial = every completed connection; distinct by hash of (configuration, profile).";
+pub const RULE: &str = "case = (connector configuration, conforming server profile). The client stack (MCS connect, client info / licence, activation, reactivation rounds, shutdown — after the server fell silent, after n reads at any point of the activation rounds, or after a trailing deactivate-all that no demand-active follows) runs against the sans-IO reference server which parses every client message strictly and records order, identifier and dependency violations. Oracle: every call returns Ok; the decoded sequence is connect-initial, erect-domain, attach-user, one join per channel (either order), client info, then per demand-active confirm-active + synchronize + cooperate + request-control + font-list, finally the disconnect ultimatum; no message written before the reply it depends on; initiator / channel / share id / PDUSource / originator / echoed protocol as assigned. Non-trivial = every completed connection; distinct by hash of (configuration, profile).";
 
 #[derive(Serialize, Deserialize, Hash, Clone, Debug)]
 pub struct Case {
     pub cfg: ClientCfg,
     pub profile: ServerProfile,
     pub chunk: u16,
+    /// 0 = read until the server falls silent; n > 0 = shutdown after n reads (at any point of the activation)
+    #[serde(default)]
+    pub stop_after: u8,
 }
 
 pub fn norm(s: &str) -> String {
@@ -79,6 +82,9 @@ pub fn run_connection(c: &Case, for_c04: bool) -> Outcome {
             let s = h.borrow();
             (s.to_client.is_empty() && s.pending.is_empty(), s.server.phase)
         };
+        if c.stop_after > 0 && reads >= c.stop_after as usize {
+            break;
+        }
         if idle {
             if phase != Phase::Active {
                 let viol = h.borrow().server.violations.join(" | ");
@@ -159,7 +165,9 @@ pub fn judge_server(out: &mut Outcome, server: &refimpl::server::Server, c: &Cas
             }
         }
         want.push("disconnect".into());
-        if kinds != want {
+        // shutdown in the middle of the activation rounds: the complete rounds so far, then the ultimatum
+        let early_ok = c.stop_after > 0 && kinds.len() >= 7 && (kinds.len() - 7) % 5 == 0 && kinds.len() <= want.len() && kinds[..kinds.len() - 1] == want[..kinds.len() - 1] && kinds.last().map(|k| k.as_str()) == Some("disconnect");
+        if kinds != want && !early_ok {
             out.fail("sequence:differs", format!("decoded client sequence {:?} expected {:?}", kinds, want));
             return;
         }
@@ -232,6 +240,12 @@ pub fn run(c: &Case) -> Outcome {
     }
     if c.profile.user_id >= 0x8000 {
         out.label("user-id>=0x8000");
+    }
+    if c.stop_after > 0 {
+        out.label("early-shutdown");
+    }
+    if !c.profile.post_activation.is_empty() {
+        out.label("trailing-deactivate");
     }
     if c.profile.activations.iter().any(|a| a.caps.iter().any(|(t, _)| refimpl::wire::capability_size_ok(*t, 0).is_none() || [5u16, 7, 9, 0xE, 0x1D, 0x1E].contains(t))) {
         out.label("unknown-caps");
@@ -333,8 +347,15 @@ pub fn decode(s: &mut Src) -> Case {
     if s.chance(160) {
         cfg.name = cfg.name.chars().filter(|c| c.is_ascii()).take(15).collect();
     }
-    let profile = gen::gen_profile(s, cfg.nla);
-    Case { cfg, profile, chunk: s.pick(&[0u16, 0, 1, 7, 1500]) }
+    let mut profile = gen::gen_profile(s, cfg.nla);
+    let chunk = s.pick(&[0u16, 0, 1, 7, 1500]);
+    // shutdown at any point: early, or after a deactivate-all that no demand-active follows
+    let stop_after = if s.chance(48) { 1 + s.below(12) as u8 } else { 0 };
+    if s.chance(40) {
+        let last = profile.activations.last().map(|a| a.share_id).unwrap_or(0);
+        profile.post_activation = vec![refimpl::wire::send_data_indication(profile.server_user, profile.io_channel, &refimpl::wire::deactivate_all(last, profile.server_user)).bytes];
+    }
+    Case { cfg, profile, chunk, stop_after }
 }
 
 pub fn check(rep: &Report) {
@@ -342,7 +363,7 @@ pub fn check(rep: &Report) {
     rep.assume("the mem lane builds the layers the way Connector::connect does after the X.224 negotiation (hooks from_transport / from_layers); the real entry point is exercised through TLS in C17/C01");
     let mut golden = Vec::new();
     for uid in [1001u16, 1002, 1004, 0x7FFF, 0x8000, 64534, 65535] {
-        golden.push(Case { cfg: ClientCfg::simple(), profile: ServerProfile::simple(uid, 0x000103EA), chunk: 0 });
+        golden.push(Case { cfg: ClientCfg::simple(), profile: ServerProfile::simple(uid, 0x000103EA), chunk: 0, stop_after: 0 });
     }
     rep.list("golden", golden, run);
     rep.random("connections", rep.tier.n(60_000, 3_000_000), 220, decode, run);
@@ -350,6 +371,8 @@ pub fn check(rep: &Report) {
     rep.random("tls", rep.tier.n(400, 20_000), 260, decode_tls, run_tls);
     rep.require("tls", "hybrid-selected", 20);
     rep.require("connections", "reactivation", 1000);
+    rep.require("connections", "early-shutdown", 1000);
+    rep.require("connections", "trailing-deactivate", 1000);
     rep.require("connections", "hybrid-selected", 1000);
     rep.require("connections", "user-id>=0x8000", 500);
     rep.require("connections", "unknown-caps", 1000);
